@@ -706,6 +706,13 @@ Definition name_case (c : string * string) : bool := String.eqb (c_file_name the
 '''
 
 
+CASE_TYPES = {
+    'run_case': 'config T * option string * list (op T * option obs)',
+    'load_case': 'config T * string * bool * list string',
+    'name_case': 'string * string',
+}
+
+
 def ccfg(sess):
     return ('{| cf_names := ' + coq_list([cs(n) for n in sess['names']]) + '; cf_model := ' + cs(sess['model'])
             + '; cf_save := ' + ('true' if sess['save'] else 'false') + '; cf_init0 := ' + cvec(sess['init']) + ' |}')
@@ -983,7 +990,7 @@ def eval_cases(ctx, st, name, hdr_cases, per_file=40):
         chunk = hdr_cases[i:i + per_file]
         chunks.append(chunk)
         body = ';\n'.join(c[0] for c in chunk)
-        files[f'{name}_{i // per_file}'] = (HEADER + f'Definition cases := [\n{body}\n].\n'
+        files[f'{name}_{i // per_file}'] = (HEADER + f'Definition cases : list ({CASE_TYPES[chunk[0][4]]}) := [\n{body}\n].\n'
                                             f'Eval vm_compute in (List.map {chunk[0][4]} cases).\n')
     outs = ctx.coq_eval_many(files)
     res = []
